@@ -5,7 +5,8 @@ models (vf/ref/c35_multimap.RefHeaders, a plain list of (name, value) bytes pair
 operation; after every operation the return value (or the raised KeyError) and the ``fields`` tuple of every
 object in the pool are compared.  Second monitor: bytes(headers) -> own CRLF line splitter ->
 mitmproxy.net.http.http1.read._read_headers gives back the same fields for every valid field list (generated
-ones and every valid state reached by a history).
+ones and every valid state reached by a history).  Thorough tier only: worker 0 additionally runs the
+repository's http tests with every Headers operation shadow-checked by the same model (vf/gen/c35_ambient.py).
 """
 import signal
 
@@ -27,8 +28,9 @@ RULE = (
     "update (pairs / other headers / kwargs), keys/values/items (multi and not), iteration, len, ==, copy, clear, construction "
     "with kwargs) on a pool of <=3 Headers objects over names {A,a,Aa,aA,b,B,X-y} given as str or bytes and 10 small values "
     "(empty, commas, non-ASCII, non-UTF-8 bytes, padded), plus one generated valid field list (token names, field-content "
-    "values) for the HTTP/1 round trip. distinct = (length class, set of operations that addressed a name held by >=2 fields or "
-    "in another spelling, set of operations that raised KeyError, whether a round trip of a reached state happened); "
+    "values) for the HTTP/1 round trip. distinct = (length class, set (<=3, else its size) of mutating operations that addressed a "
+    "name held by >=2 fields or in another spelling, whether a reading operation did, whether a KeyError was raised, whether a "
+    "round trip of a reached state happened); "
     "non-trivial = at least one mutating operation addressed a name present several times or in a different spelling"
 )
 ASSUMPTIONS = [
@@ -301,16 +303,64 @@ def one_history(ctx, r):
         if not check_fields(ctx, pool, hist):
             return ("diverged-fields", op), True, hist
     ln = 0 if n_ops <= 3 else 1 if n_ops <= 12 else 2
-    return (ln, tuple(sorted(hit_multi)), tuple(sorted(raised)), did_rt), nontrivial, hist
+    hm = sorted(hit_multi & MUTATORS)
+    return (ln, tuple(hm) if len(hm) <= 3 else ("many", len(hm)), bool(hit_multi - MUTATORS), bool(raised), did_rt), nontrivial, hist
 
 
 def _alarm(signum, frame):
     raise Inconclusive("history did not finish within 10 s")
 
 
+AMBIENT_TESTS = [
+    "test/mitmproxy/test_http.py", "test/mitmproxy/net/http", "test/mitmproxy/coretypes/test_multidict.py", "test/mitmproxy/proxy/layers/http",
+    "test/mitmproxy/addons/test_modifyheaders.py", "test/mitmproxy/addons/test_stickycookie.py", "test/mitmproxy/addons/test_anticache.py",
+    "test/mitmproxy/addons/test_mapremote.py", "test/mitmproxy/addons/test_maplocal.py",
+]
+
+
+def ambient(ctx):
+    """Thorough tier, worker 0: the repository's own http tests run in a subprocess with every Headers operation
+    shadow-checked against the model (pytest plugin vf/gen/c35_ambient.py). A failing/timed-out subprocess is only counted."""
+    import json
+    import os
+    import subprocess
+    import tempfile
+
+    from vf.core import PY, REPO, ROOT
+
+    out = tempfile.mktemp(prefix="c35-ambient-", suffix=".json")
+    env = dict(os.environ, C35_AMBIENT_OUT=out, PYTHONPATH=f"{ROOT}:{REPO}", PYTHONDONTWRITEBYTECODE="1")
+    tests = [t for t in AMBIENT_TESTS if os.path.exists(os.path.join(REPO, t))]
+    try:
+        subprocess.run([PY, "-m", "pytest", "-q", "-x", "-p", "vf.gen.c35_ambient", "-p", "no:cacheprovider", *tests], cwd=REPO, env=env, timeout=170, capture_output=True)
+        with open(out) as f:
+            st = json.load(f)
+    except (subprocess.TimeoutExpired, OSError, ValueError):
+        ctx.count("ambient.inconclusive")
+        return
+    finally:
+        if os.path.exists(out):
+            os.unlink(out)
+    ctx.count("ambient.ops_checked", st["checked"])
+    ctx.count("ambient.ops_skipped_out_of_domain", st["skipped"])
+    ctx.extra["ambient_ops_by_method"] = st["by_op"]
+    for v in st["violations"]:
+        ctx.violation("ambient-divergence", v, None)
+
+
 def run(ctx):
+    with_ambient = ctx.tier == "thorough" and ctx.worker == 0 and ctx.only_case is None
+    try:
+        histories(ctx, frac=0.85 if with_ambient else 1.0)
+    finally:
+        signal.alarm(0)
+    if with_ambient:
+        ambient(ctx)
+
+
+def histories(ctx, frac):
     signal.signal(signal.SIGALRM, _alarm)
-    for i in ctx.cases():
+    for i in ctx.cases(frac=frac):
         r = ctx.rng
         signal.alarm(10)  # step watchdog: a non-terminating operation makes the case inconclusive, not a violation
         try:
